@@ -93,6 +93,9 @@ def stmt(s, inc_names, indent=""):
         return [indent + "\t." + k]
     if k == "ascii":
         return [indent + '\t.ascii "' + "".join(chr(b) for b in s["bs"]) + '"']
+    if k == "asciic":
+        parts = [('"' + "".join(chr(b) for b in c["q"]) + '"') if "q" in c else ("<" + expr(c["e"]) + ">") for c in s["cs"]]
+        return [indent + "\t.ascii " + " ".join(parts)]
     if k == "label":
         return [indent + s["n"] + ("::" if s["x"] else ":")]
     if k == "const":
